@@ -2258,6 +2258,35 @@ evutil_inet_pton_scope(int af, const char *src, void *dst, unsigned *indexp)
 	return r;
 }
 
+#if !(defined(EVENT__HAVE_INET_PTON) && !defined(USE_INTERNAL_PTON))
+/* Parse a dotted quad strictly: four decimal numbers in 0..255 separated by
+ * single dots and nothing else.  No sign, no white space, no overflow; leading
+ * zeros are tolerated and read as decimal.  Returns 1 on success. */
+static int
+evutil_parse_dotted_quad_(const char *s, unsigned bytes[4])
+{
+	int i;
+	for (i = 0; i < 4; ++i) {
+		unsigned v = 0;
+		if (!EVUTIL_ISDIGIT_(*s))
+			return 0;
+		while (EVUTIL_ISDIGIT_(*s)) {
+			v = v * 10 + (unsigned)(*s - '0');
+			if (v > 255)
+				return 0;
+			++s;
+		}
+		bytes[i] = v;
+		if (i < 3) {
+			if (*s != '.')
+				return 0;
+			++s;
+		}
+	}
+	return *s == '\0';
+}
+#endif
+
 int
 evutil_inet_pton(int af, const char *src, void *dst)
 {
@@ -2265,16 +2294,13 @@ evutil_inet_pton(int af, const char *src, void *dst)
 	return inet_pton(af, src, dst);
 #else
 	if (af == AF_INET) {
-		unsigned a,b,c,d;
-		char more;
+		unsigned b[4];
 		struct in_addr *addr = dst;
-		if (sscanf(src, "%u.%u.%u.%u%c", &a,&b,&c,&d,&more) != 4)
+		/* sscanf("%u") would take white space, a sign and values that
+		 * wrap around; an address has none of these. */
+		if (!evutil_parse_dotted_quad_(src, b))
 			return 0;
-		if (a > 255) return 0;
-		if (b > 255) return 0;
-		if (c > 255) return 0;
-		if (d > 255) return 0;
-		addr->s_addr = htonl((a<<24) | (b<<16) | (c<<8) | d);
+		addr->s_addr = htonl((b[0]<<24) | (b[1]<<16) | (b[2]<<8) | b[3]);
 		return 1;
 #ifdef AF_INET6
 	} else if (af == AF_INET6) {
@@ -2288,26 +2314,19 @@ evutil_inet_pton(int af, const char *src, void *dst)
 		else if (!dot)
 			eow = src+strlen(src);
 		else {
-			unsigned byte1,byte2,byte3,byte4;
-			char more;
+			unsigned b[4];
 			for (eow = dot-1; eow >= src && EVUTIL_ISDIGIT_(*eow); --eow)
 				;
 			++eow;
 
-			/* We use "scanf" because some platform inet_aton()s are too lax
-			 * about IPv4 addresses of the form "1.2.3" */
-			if (sscanf(eow, "%u.%u.%u.%u%c",
-					   &byte1,&byte2,&byte3,&byte4,&more) != 4)
+			/* Some platform inet_aton()s are too lax about IPv4
+			 * addresses of the form "1.2.3", and scanf is too lax
+			 * about signs and white space. */
+			if (!evutil_parse_dotted_quad_(eow, b))
 				return 0;
 
-			if (byte1 > 255 ||
-			    byte2 > 255 ||
-			    byte3 > 255 ||
-			    byte4 > 255)
-				return 0;
-
-			words[6] = (byte1<<8) | byte2;
-			words[7] = (byte3<<8) | byte4;
+			words[6] = (b[0]<<8) | b[1];
+			words[7] = (b[2]<<8) | b[3];
 			setWords += 2;
 		}
 
@@ -2316,19 +2335,24 @@ evutil_inet_pton(int af, const char *src, void *dst)
 			if (i > 7)
 				return 0;
 			if (EVUTIL_ISXDIGIT_(*src)) {
-				char *next;
-				long r = strtol(src, &next, 16);
-				if (next > 4+src)
-					return 0;
-				if (next == src)
-					return 0;
-				if (r<0 || r>65536)
-					return 0;
+				/* one to four hex digits; strtol() would also
+				 * take a "0x" prefix */
+				unsigned r = 0;
+				int ndigits = 0;
+				while (EVUTIL_ISXDIGIT_(*src)) {
+					if (++ndigits > 4)
+						return 0;
+					r = (r << 4) | (unsigned)evutil_hex_char_to_int_(*src);
+					++src;
+				}
 
 				words[i++] = (ev_uint16_t)r;
 				setWords++;
-				src = next;
 				if (*src != ':' && src != eow)
+					return 0;
+				/* a single colon has to be followed by another
+				 * group (or by the dotted quad) */
+				if (*src == ':' && src + 1 == eow && !dot)
 					return 0;
 				++src;
 			} else if (*src == ':' && i > 0 && gapPos==-1) {
